@@ -163,8 +163,71 @@ type c06Out struct {
 	shared     int
 }
 
+// c06MaxLen: the longest array this worker process has handed to the library so far. The cold-start
+// block below uses arrays longer than that, so that anything the library sizes lazily "for the
+// largest input seen so far" (caches, tables, pooled buffers) grows WHILE several goroutines run.
+var c06MaxLen = 16
+
+func c06ColdStart(r *Rng) string {
+	G := r.Range(2, 8)
+	base := c06MaxLen
+	c06MaxLen = base*2 + r.Range(1, 50)
+	paths := []string{"$[1:]", "$[0:2]", "$[*,0]", "$[*]", "$[::2]", "$..[0]", "$[?(@ >= 0)]", "$[-1:]", "$[::-1]"}
+	var wg sync.WaitGroup
+	errs := make([]string, G)
+	start := make(chan struct{})
+	for w := 0; w < G; w++ {
+		wg.Add(1)
+		n := base + 1 + (w*(c06MaxLen-base))/G
+		pick := r.Intn(len(paths))
+		go func(w, n, pick int) {
+			defer wg.Done()
+			arr := make([]interface{}, n)
+			for k := range arr {
+				arr[k] = float64(k)
+			}
+			<-start
+			for rep := 0; rep < 3; rep++ {
+				path := paths[(pick+rep)%len(paths)]
+				o := Run(path, arr, nil)
+				want := -1
+				switch path {
+				case "$[1:]":
+					want = n - 1
+				case "$[0:2]":
+					want = 2
+				case "$[*,0]":
+					want = n + 1
+				case "$[*]", "$[?(@ >= 0)]", "$[::-1]":
+					want = n
+				case "$[::2]":
+					want = (n + 1) / 2
+				case "$..[0]", "$[-1:]":
+					want = 1
+				}
+				if !o.OK || len(o.Vals) != want {
+					errs[w] = fmt.Sprintf("cold start: %s on [0..%d) in goroutine %d of %d: %s (expected %d values)", path, n, w, G, clip(o.Detail(), 200), want)
+					return
+				}
+			}
+		}(w, n, pick)
+	}
+	close(start)
+	wg.Wait()
+	for _, e := range errs {
+		if e != "" {
+			return e
+		}
+	}
+	return ""
+}
+
 func (c06) Exec(seed int64, i int, tier string) Record {
 	r := CaseRng(seed, "C06", i)
+	coldViol := ""
+	if r.Chance(30) && c06MaxLen < 1<<20 {
+		coldViol = c06ColdStart(r)
+	}
 	docs := []interface{}{c06DocA(), c06DocB()}
 	var texts []string
 	ngen := r.Range(1, 4)
@@ -202,6 +265,11 @@ func (c06) Exec(seed int64, i int, tier string) Record {
 	}
 	rec := Record{Text: strings.Join(texts, "   |   "), Doc: docTexts[0]}
 	rec.Info = map[string]interface{}{"paths": texts, "documents": docTexts}
+	if coldViol != "" {
+		rec.Viol = coldViol
+		rec.Class = "concurrent-differs"
+		return rec
+	}
 
 	cfgPlain, cfgAcc := c05Config(false, nil), c06OtherConfig()
 	cfgs := [c06NCfg]*jsonpath.Config{&cfgPlain, &cfgAcc, nil}
